@@ -223,11 +223,13 @@ Example C04_example :
   let '(ak, bk, dk) := run_steps mixed_impl ex_parts ex_last [inl ex_native; inr ex_json] in
   map aname ak = ["a"; "b"] /\
   map (fun bl => (btype bl, blabels bl)) bk = [("foo", []); ("blk", ["l1"]); ("blk", ["l2"]); ("blk", ["l2"])] /\
-  dk = [(MissingRequired, "zz"); (MissingLabel, "blk"); (Duplicate, "b"); (ExtraneousProp, "c")].
+  dk = [(MissingLabel, "blk"); (MissingRequired, "zz"); (ExtraneousProp, "c"); (Duplicate, "b")].
 Proof.
-  split; [repeat constructor; cbn; intuition discriminate|].
-  split.
-  - cbn. repeat split; try constructor; try (intros n H H'; cbn in *; intuition congruence).
-    all: try (constructor; [intros n H H'; cbn in *; intuition congruence|constructor]).
+  split; [|split].
+  - repeat (apply Forall_cons || apply Forall_nil); unfold schema_ok; cbn;
+      repeat constructor; cbn; tauto.
+  - cbn. unfold disjoint, schema_names, attr_names, block_names.
+    repeat (split || apply Forall_cons || apply Forall_nil);
+      intros n H H'; cbn in H, H'; intuition (subst; discriminate).
   - vm_compute. repeat split; reflexivity.
 Qed.
